@@ -5,12 +5,13 @@ from pathlib import Path
 
 HERE = Path(__file__).resolve().parent
 reg = {f.stem: json.loads(f.read_text()) for f in sorted((HERE / "harness" / "registry").glob("C*.json"))}
+enabled = set((HERE / "harness" / "enabled.txt").read_text().split())
 props = [json.loads(l) for l in (HERE / "properties.jsonl").read_text().splitlines() if l.strip()]
 checks, na = [], []
 for p in props:
     pid = p["id"]
     r = reg.get(pid)
-    if r and r.get("claimed"):
+    if r and r.get("claimed") and pid in enabled:
         checks.append({
             "property_id": pid,
             "quick_cmd": f"./check {pid} --tier quick",
@@ -23,7 +24,7 @@ for p in props:
             "technique": r.get("technique", "Lean 4 theorems over a hand-written executable model + differential correspondence check against /repo"),
         })
     else:
-        na.append({"property_id": pid, "reason": (r or {}).get("reason", "check not built yet in this session; no claim is made")})
+        na.append({"property_id": pid, "reason": (r or {}).get("reason") if r and not r.get("claimed") and r.get("reason") else "check still under construction / not yet validated on the unchanged tree; no claim is made yet"})
 m = {
     "version": 1,
     "setup_cmd": "cd lean && lake build Haiway hwmodel",
